@@ -105,7 +105,7 @@ def bound_values_ok(self, val, values, n):
 SPEC("pane.classes", "PaneConverter.try_convert_struct",
      shapes=STRUCT_SHAPES,
      requires=[lambda self, val: wf_Pane(self), lambda self, val: is_data_map(val)],
-     returns_iff=(lambda self, val: ACC_PaneStruct(self, val), ["C15", "C01", "C03", "C14", "C05", "C06"]),
+     returns_iff=(lambda self, val: ACC_PaneStruct(self, val), ["C15", "C01", "C02", "C03", "C14", "C05", "C06"]),
      note="default factories are assumed not to raise",
      ensures=[
          # the instance is built from: converted values of the bound fields, defaults (fresh factory products) for the
@@ -294,13 +294,13 @@ SPEC("pane.classes", "PaneConverter.into_data",
      note="assumed: output names are strings (hashable)",
      ensures=[(lambda self, val, result: implies(self.opts.out_format == "tuple",
                slen(result) == n_out(self)
-               and forall(range(n_out(self)), lambda j: sat(result, j) == field_ser(self, val, out_pos(self, j)))), ["C15", "C05"], "ser-tuple"),
+               and forall(range(n_out(self)), lambda j: sat(result, j) == field_ser(self, val, out_pos(self, j)))), ["C15", "C05", "C06"], "ser-tuple"),
               (lambda self, val, result: implies(self.opts.out_format == "struct" and self.opts.out_format != "tuple",
                forall(range(slen(self.fields)), lambda i: implies(not truthy(sat(self.fields, i).exclude),
                                                                   mhas(result, sat(self.fields, i).out_name)))
                and forall_val(lambda k: implies(mhas(result, k), exists(range(slen(self.fields)), lambda i:
                                                 not truthy(sat(self.fields, i).exclude) and sat(self.fields, i).out_name == k
-                                                and mget(result, k) == field_ser(self, val, i))))), ["C15", "C05"], "ser-struct")],
+                                                and mget(result, k) == field_ser(self, val, i))))), ["C15", "C05", "C06"], "ser-struct")],
      raises=(lambda self, val, exc: exc_is(exc, ValueError), ["C15"]))
 
 
